@@ -127,8 +127,14 @@ def case_term(case, d5=True):
     fam = case["fam"]
     snaps = case["snaps"]
     steps = []
+    from harness.props.c14 import selfref_dialect_gap
     for (k, op, got, exp, sig), meta, snap in zip(case["res"], case["opmeta"], snaps[1:]):
         if not meta["valid"]:
+            break
+        if any(c["parent"] is not None for c in fam["classes"]) and selfref_dialect_gap(fam, snap):
+            # known finding C14/dialect-first-call-on-self-referencing-class in a family with inheritance: the real
+            # call may resolve through the MRO to an ancestor's method; the model has no MRO - the history is
+            # compared up to the operation that creates this configuration
             break
         kind = outcome_kind(got, case.get("rec", {}).get(k))
         if kind is None:
